@@ -15,6 +15,8 @@ import (
 	"crypto/sha256"
 	"encoding/hex"
 	"fmt"
+	"os"
+	"strconv"
 
 	"github.com/alicebob/miniredis/v2"
 	"github.com/redis/go-redis/v9"
@@ -122,7 +124,7 @@ type answer struct {
 	Kind string `json:"k"` // read kind
 	Arg  int64  `json:"a"`
 	Ans  string `json:"r"` // Coq term of the answer
-	coq  string
+	read string
 }
 
 func aNone() string         { return "ANone" }
@@ -147,7 +149,7 @@ func (w *world) bytesAns(enchint string, meta, body []byte, found bool, err erro
 func (w *world) readAll(db isaac.PermanentDatabase, lo, hi int64) []answer {
 	var out []answer
 	add := func(kind string, arg int64, coqread, ans string) {
-		out = append(out, answer{Kind: kind, Arg: arg, Ans: ans, coq: vh.Tuple(coqread, ans)})
+		out = append(out, answer{Kind: kind, Arg: arg, Ans: ans, read: coqread})
 	}
 	// last block map
 	switch m, found, err := db.LastBlockMap(); {
@@ -421,14 +423,17 @@ func runChain(e *env, mr *miniredis.Miniredis, cs chainSpec, seed uint64, cases 
 	defer func() { _ = rdb.Close() }()
 
 	step := func(i int, reopened bool) {
-		lo, hi := cs.Start-1, cs.Start+int64(len(w.written))
+		lo, hi := cs.Start-1-extraBelow, cs.Start+int64(len(w.written))
 		ra, la := w.readAll(rdb, lo, hi), w.readAll(ldb, lo, hi)
 		if len(ra) != len(la) {
 			panic("read lists differ in length")
 		}
-		ro, lo2 := make([]string, len(ra)), make([]string, len(la))
+		obs := make([]string, len(ra))
 		for j := range ra {
-			ro[j], lo2[j] = ra[j].coq, la[j].coq
+			if ra[j].read != la[j].read {
+				panic("read lists differ")
+			}
+			obs[j] = vh.Tuple(ra[j].read, ra[j].Ans, la[j].Ans)
 			if ra[j].Ans != la[j].Ans {
 				res.Fail("backends-disagree:"+ra[j].Kind, fmt.Sprintf("%s(%d) after block %d (reopened=%v): redis=%s leveldb=%s [%s]", ra[j].Kind, ra[j].Arg, i, reopened, ra[j].Ans, la[j].Ans, tag),
 					map[string]any{"chain": cs, "seed": seed})
@@ -437,7 +442,7 @@ func runChain(e *env, mr *miniredis.Miniredis, cs chainSpec, seed uint64, cases 
 		res.Count(fmt.Sprintf("%s/%d/%v", tag, i, reopened), len(w.written) > 0)
 		res.Evaluations += len(ra) - 1
 		res.Dist(fmt.Sprintf("step:reopened=%v", reopened))
-		cases.Add(vh.Tuple(w.coqChain(), vh.Bool(reopened), vh.List(ro), vh.List(lo2)),
+		cases.Add(vh.Tuple(w.coqChain(), vh.Bool(reopened), vh.List(obs)),
 			map[string]any{"chain": cs, "seed": seed, "after_block": i, "reopened": reopened, "redis": ra, "leveldb": la})
 	}
 
@@ -498,6 +503,13 @@ func genChain(r *vh.Rand, maxlen int) chainSpec {
 	return cs
 }
 
+// C26_EXTRA_BELOW=n (experiments only): also read n heights below start-1, i.e. below base.NilHeight when start = 0
+var extraBelow = func() int64 {
+	n, _ := strconv.ParseInt(os.Getenv("C26_EXTRA_BELOW"), 10, 64)
+
+	return n
+}()
+
 type replay struct {
 	Chain chainSpec `json:"chain"`
 	Seed  uint64    `json:"seed"`
@@ -510,7 +522,7 @@ func main() {
 	mr, err := miniredis.Run()
 	must(err)
 	defer mr.Close()
-	cases := &vh.Cases{Import: "From MV Require Import C26.Model.", Type: "list block * bool * list (read * ans) * list (read * ans)", CheckFn: "check", Shard: 40}
+	cases := &vh.Cases{Import: "From MV Require Import C26.Model.", Type: "list block * bool * list (read * ans * ans)", CheckFn: "check", Shard: 24}
 	r := vh.NewRand(o.Seed)
 
 	if o.Replay != "" {
@@ -538,7 +550,7 @@ func main() {
 		runChain(e, mr, cs, uint64(1000+i), cases, res, fmt.Sprintf("corpus%d", i))
 	}
 
-	chains := o.Pick(25, 1200)
+	chains := o.Pick(15, 400)
 	for c := 0; c < chains; c++ {
 		cs := genChain(r, o.Pick(10, 16))
 		runChain(e, mr, cs, r.U64(), cases, res, fmt.Sprintf("chain%d", c))
